@@ -231,13 +231,14 @@ func mIntRulesFor(d string) []mRule {
 // VerifC04_NestedLists: `or` with rule sets and names, `enum` lists, large
 // integer rule values.
 func VerifC04_NestedLists() {
-	zzverif.Expect("checked")
+	zzverif.Expect("checked", "checked-0", "checked-1", "checked-2", "checked-3", "checked-4", "checked-5", "checked-6", "checked-7", "checked-8")
 	a := string([]byte{zzverif.OneOf("a", "01234")})
 	// concretised (forked), not symbolic: a symbolic digit inside a 19-20 digit
 	// value puts a chain of 64-bit multiplications (ParseUint) into every query
 	a9 := string([]byte{byte('0' + zzverif.IntRange("a9", 0, 9))})
 	var n mNode
-	switch zzverif.IntRange("family", 0, 3) {
+	family := zzverif.IntRange("family", 0, 8)
+	switch family {
 	case 0:
 		n = mNode{kind: schema.TokenTypeNumber, valText: "5", valWant: "5"}
 		set := schema.RuleASTNode{TokenType: schema.TokenTypeObject, Source: schema.RuleASTNodeSourceManual,
@@ -256,6 +257,44 @@ func VerifC04_NestedLists() {
 		big := []string{"18446744073709551615", "9999999999999999999", "1000000000000000000" + a9, "12345678901234567" + a9 + "0", "1844674407370955161" + a9, "1844674407370955162" + a9}[zzverif.IntRange("big", 0, 5)]
 		n = mNode{kind: schema.TokenTypeString, valText: `"abc"`, valWant: "abc"}
 		n.rules = []mRule{{"maxLength", big, mNum(schema.TokenTypeNumber, big)}}
+	case 8: // a rule set inside `or` whose FIRST rule is an enum list: the written order is kept
+		n = mNode{kind: schema.TokenTypeNumber, valText: "2", valWant: "2"}
+		list := schema.RuleASTNode{TokenType: schema.TokenTypeArray, Source: schema.RuleASTNodeSourceManual,
+			Items: []schema.RuleASTNode{mNum(schema.TokenTypeNumber, "1"), mNum(schema.TokenTypeNumber, "2"), mNum(schema.TokenTypeNumber, a)}}
+		set := schema.RuleASTNode{TokenType: schema.TokenTypeObject, Source: schema.RuleASTNodeSourceManual,
+			Properties: schema.NewRuleASTNodes(map[string]schema.RuleASTNode{
+				"enum": list, "type": mNum(schema.TokenTypeString, "enum")}, []string{"enum", "type"})}
+		n.rules = []mRule{{"or", `[{enum: [1, 2, ` + a + `], type: "enum"}, "string"]`,
+			schema.RuleASTNode{TokenType: schema.TokenTypeArray, Source: schema.RuleASTNodeSourceManual,
+				Items: []schema.RuleASTNode{set, mNum(schema.TokenTypeString, "string")}}}}
+	case 4: // the remaining scalar rules of a number, in two orders
+		n = mNode{kind: schema.TokenTypeNumber, valText: "1.25", valWant: "1.25"}
+		n.rules = []mRule{{"type", `"decimal"`, mNum(schema.TokenTypeString, "decimal")}, {"precision", "2", mNum(schema.TokenTypeNumber, "2")},
+			{"min", "1", mNum(schema.TokenTypeNumber, "1")}, {"exclusiveMinimum", "true", mNum(schema.TokenTypeBoolean, "true")},
+			{"max", a + "0.5", mNum(schema.TokenTypeNumber, a+"0.5")}, {"exclusiveMaximum", "false", mNum(schema.TokenTypeBoolean, "false")},
+			{"const", "false", mNum(schema.TokenTypeBoolean, "false")}}
+		if zzverif.Bool("reversed") {
+			for i, j := 0, len(n.rules)-1; i < j; i, j = i+1, j-1 {
+				n.rules[i], n.rules[j] = n.rules[j], n.rules[i]
+			}
+		}
+	case 5: // string rules; a rule value that is a string with escapes is reported decoded
+		n = mNode{kind: schema.TokenTypeString, valText: `"a.b"`, valWant: "a.b"}
+		n.rules = []mRule{{"minLength", a, mNum(schema.TokenTypeNumber, a)}, {"regex", `"^a\\.b\u0024"`, mNum(schema.TokenTypeString, `^a\.b$`)},
+			{"nullable", "true", mNum(schema.TokenTypeBoolean, "true")}}
+	case 6: // rules of an object
+		n = mNode{kind: schema.TokenTypeObject}
+		n.rules = []mRule{{"additionalProperties", []string{"true", "false", `"integer"`, `"any"`}[zzverif.IntRange("ap", 0, 3)], schema.RuleASTNode{}}, {"nullable", "true", mNum(schema.TokenTypeBoolean, "true")}}
+		ap := n.rules[0].text
+		if ap[0] == '"' {
+			n.rules[0].want = mNum(schema.TokenTypeString, ap[1:len(ap)-1])
+		} else {
+			n.rules[0].want = mNum(schema.TokenTypeBoolean, ap)
+		}
+		n.children = []mNode{{kind: schema.TokenTypeNumber, key: "k", valText: a, valWant: a}}
+	case 7: // a format type with const
+		n = mNode{kind: schema.TokenTypeString, valText: `"2021-01-08"`, valWant: "2021-01-08"}
+		n.rules = []mRule{{"type", `"date"`, mNum(schema.TokenTypeString, "date")}, {"const", "true", mNum(schema.TokenTypeBoolean, "true")}}
 	default:
 		n = mNode{kind: schema.TokenTypeArray, note: mNote("n.")}
 		n.rules = []mRule{{"maxItems", "1844674407370955161" + a9, mNum(schema.TokenTypeNumber, "1844674407370955161"+a9)}}
@@ -268,5 +307,6 @@ func VerifC04_NestedLists() {
 	ast, err := s.GetAST()
 	zzverif.Assert(err == nil, "GetAST() succeeds on an accepted schema")
 	mCheck(ast, n)
+	zzverif.Reach("checked-" + string([]byte{byte('0' + family)}))
 	zzverif.Reach("checked")
 }
